@@ -158,7 +158,8 @@ Lemma plan_inside m size op goff glen wr toff tlen :
   op_plan m size op = Val (PGuard goff glen wr toff tlen) ->
   goff <= toff /\ toff + tlen <= goff + glen /\ goff + glen <= size.
 Proof.
-  destruct op as [off len|off len|off len w|off t|off t|off t n i|off t n i|off t n k|off t n k|off t|off len];
+  destruct op as [off len|off len|off len w|off t|off t|off t n i|off t n i|off t n k|off t n k|off t|off len
+                  |off cnt sl|off cnt|off len t k|off len t k];
     cbn [op_plan].
   1,2: destruct (len =? 0); [discriminate|]; destruct (N.leb_spec size off) as [L|L]; [discriminate|];
        intros HH; inv_val; lia.
@@ -188,6 +189,20 @@ Proof.
     + cbn [guard_len]. rewrite pmul_Val by exact I. cbn [bind]. intros H; inv_val. nia.
   - destruct (end_offset size off t); [|discriminate]. destruct (off mod t =? 0); discriminate.
   - destruct (end_offset size off len); discriminate.
+  - destruct (N.ltb_spec size off) as [L|L]; [discriminate|]. intros HH; inv_val. lia.
+  - destruct (N.ltb_spec size off) as [L|L]; [discriminate|]. intros HH; inv_val. lia.
+  - destruct (end_offset size off len) eqn:E; [|discriminate]. apply end_offset_Some in E.
+    destruct (t =? 1); [intros HH; inv_val; lia|].
+    unfold pdiv. destruct (N.eqb_spec t 0) as [Z|Z]; cbn [bind]; [discriminate|].
+    destruct (isz_mul (len / t) t) as [nb|] eqn:I; [|discriminate]. apply isz_mul_Some in I. destruct I as [-> I].
+    cbn [guard_len]. rewrite pmul_Val by exact I. cbn [bind]. intros HH; inv_val.
+    pose proof (N.mul_div_le len t Z) as D. remember (len / t) as q. nia.
+  - destruct (end_offset size off len) eqn:E; [|discriminate]. apply end_offset_Some in E.
+    destruct (t =? 1); [intros HH; inv_val; lia|].
+    unfold pdiv. destruct (N.eqb_spec t 0) as [Z|Z]; cbn [bind]; [discriminate|].
+    destruct (isz_mul (len / t) t) as [nb|] eqn:I; [|discriminate]. apply isz_mul_Some in I. destruct I as [-> I].
+    cbn [guard_len]. rewrite pmul_Val by exact I. cbn [bind]. intros HH; inv_val.
+    pose proof (N.mul_div_le len t Z) as D. remember (len / t) as q. nia.
 Qed.
 
 (* every guarded access of an operation on an on-demand region takes place inside the window that
